@@ -106,6 +106,9 @@ class RequestPath(object):
         if root in REQUEST_LOCAL_NAMES:
             return 'request-local', 'role of %s' % root
         if root in params:
+            why = self.param_role(fi, root)
+            if why:
+                return 'request-local', why
             return 'shared', 'parameter %s has no per-request role' % root
         # a local that only ever holds values produced by calls in this activation (or the exception being handled)
         if self._activation_local(fi, root, params):
@@ -115,6 +118,54 @@ class RequestPath(object):
             return 'shared', 'module-level object %s' % root
         # local of unknown provenance (e.g. alias of a parameter)
         return 'shared', 'local %s of unknown provenance' % root
+
+    def param_role(self, fi, name, depth=0):
+        """A parameter without a role of its own takes the role of what is passed for it: when *every* call of the
+        function the call graph knows hands over an object that is fresh or request-local in the caller (and the function
+        is never passed around as a value, so there are no calls the graph cannot see), stores through the parameter
+        stay inside the request.  -> reason text, or None."""
+        from ..astutil import argn
+        if depth > 3 or name in ('self', 'cls'):
+            return None
+        a = fi.node.args
+        if (a.vararg and a.vararg.arg == name) or (a.kwarg and a.kwarg.arg == name):
+            return None
+        edges = self.cg.callers(fi)
+        if not edges or any(e.kind not in ('call', 'self', 'classattr') for e in edges):
+            return None          # no known call, or reached by reference / by-name dispatch: cannot enumerate the callers
+        if any(fi is f for f, _ in self.dynamic_roots):
+            return None
+        pos = [x.arg for x in a.posonlyargs + a.args]
+        static = any(isinstance(d, ast.Name) and d.id == 'staticmethod' for d in fi.node.decorator_list)
+        callers = []
+        for e in edges:
+            call = e.node
+            if not isinstance(call, ast.Call) or any(isinstance(x, ast.Starred) for x in call.args) or any(k.arg is None for k in call.keywords):
+                return None
+            idx = pos.index(name) if name in pos else None
+            if idx is not None and fi.cls is not None and not static and isinstance(call.func, ast.Attribute):
+                idx -= 1         # bound call: self is implicit
+            arg = argn(call, name, idx if idx is None or idx >= 0 else None)
+            if not isinstance(arg, ast.Name):
+                return None
+            caller = e.caller
+            if not hasattr(caller, 'params') or isinstance(caller.node, ast.Lambda):
+                return None
+            fresh = effects.fresh_locals(self.repo, caller)
+            cparams = set(caller.params())
+            if arg.id in fresh:
+                pass
+            elif arg.id in self.shared_aliases(caller):
+                return None
+            elif arg.id in REQUEST_LOCAL_NAMES:
+                pass
+            elif arg.id in cparams:
+                if not self.param_role(caller, arg.id, depth + 1):
+                    return None
+            elif not self._activation_local(caller, arg.id, cparams):
+                return None
+            callers.append(caller.qualname)
+        return 'parameter %s: every caller (%s) passes an object of its own request' % (name, ', '.join(sorted(set(callers))))
 
     def _activation_local(self, fi, name, params, depth=0):
         """every assignment of the local is a call result, the exception being handled, or another such local"""
@@ -127,6 +178,8 @@ class RequestPath(object):
         for st, v, idx in vals:
             if idx == 'exc':
                 continue
+            if idx == 'iter' and self._iterates_activation_container(fi, v, params, depth):
+                continue     # element of a container that itself belongs to this activation
             if idx is None and isinstance(v, ast.Call):
                 continue
             if idx is None and isinstance(v, ast.Name) and (v.id in REQUEST_LOCAL_NAMES or self._activation_local(fi, v.id, params, depth + 1)):
@@ -134,6 +187,39 @@ class RequestPath(object):
             if idx is None and isinstance(v, ast.Constant):
                 continue
             return False
+        return True
+
+    def _iterates_activation_container(self, fi, it, params, depth):
+        """``for x in <it>``: every container the iterable draws from (looking through enumerate / zip / sorted /
+        reversed / list / tuple / iter and .items() / .values() / .keys()) is rooted in a local that is fresh,
+        request-local by role, or itself holds only values produced in this activation.  Stores through ``x`` are then
+        stores into that container's own elements -- the same judgement the classification makes for ``c[i][k] = v``."""
+        todo, roots = [it], []
+        while todo:
+            e = todo.pop()
+            if isinstance(e, ast.Call) and isinstance(e.func, ast.Name) and e.func.id in ('enumerate', 'zip', 'sorted', 'reversed', 'list', 'tuple', 'iter') \
+                    and e.args and not any(isinstance(a, ast.Starred) for a in e.args):
+                todo.extend(e.args[:1] if e.func.id == 'enumerate' else e.args)
+                continue
+            if isinstance(e, ast.Call) and isinstance(e.func, ast.Attribute) and e.func.attr in ('items', 'values', 'keys') and not e.args:
+                todo.append(e.func.value)
+                continue
+            while isinstance(e, (ast.Attribute, ast.Subscript)):
+                e = e.value
+            if not isinstance(e, ast.Name):
+                return False
+            roots.append(e.id)
+        if not roots:
+            return False
+        fresh = effects.fresh_locals(self.repo, fi)
+        al = self.shared_aliases(fi)
+        for r in roots:
+            if r in ('self', 'cls') or r in al:
+                return False
+            if r in fresh or r in REQUEST_LOCAL_NAMES:
+                continue
+            if r in params or not self._activation_local(fi, r, params, depth + 1):
+                return False
         return True
 
     def shared_aliases(self, fi):
